@@ -8,6 +8,16 @@ HERE = os.path.dirname(os.path.dirname(os.path.abspath(__file__)))
 
 # id -> (level, technique, text, note, design_ref)
 CHECKS = {
+    'C08': ('exploration',
+            'Hypothesis generation of containers with cells on/next to thresholds x gate parameters; '
+            'independently written reference predicates; gated == data[mask]; short == full form',
+            'start_end, high_low and ellipse on generated arrays and loaded samples (0..60 events, ints and '
+            'floats, values on thresholds and their nextafter neighbours, every channel form, defaulted and '
+            'explicit thresholds, exactly representable ellipse boundary points, log flag) against reference '
+            'predicates on Python numbers; contour on-ellipse/closed/covering; refusals.',
+            'Trusted: reference predicates in pbt/props/c08.py; ellipse membership only asserted for |q-1|>1e-9 '
+            'or exactly representable boundary points.',
+            'DESIGN.md section 4, C08'),
     'C12': ('exploration',
             'Hypothesis generation of event matrices x dtypes x containers x channel forms; differential vs '
             'pure-Python textbook definitions; container/channel-form agreement; identities',
